@@ -43,6 +43,11 @@ type c15Spec struct {
 	// ParkCheck: after the histories, two rounds of "all slots taken by gated functions that
 	// finish at the same moment, then a fresh microtask" (see parkCheck).
 	ParkCheck bool `json:"park_check,omitempty"`
+	// Restart: module management is on; after the histories module w0 is stopped by a
+	// management pass while Run* functions of it are running (M2 at a module stop), gets
+	// microtasks while it is offline, is started again while they run, and they finish in
+	// its next life (M3/M4 across lives), see restartCheck.
+	Restart bool `json:"restart,omitempty"`
 }
 
 type c15Hist struct {
@@ -63,8 +68,9 @@ type c15Task struct {
 	DoneCalls  int    `json:"done,omitempty"`
 	DoneConc   bool   `json:"done_conc,omitempty"`
 	MaxDelayMs int    `json:"maxdelay_ms"`
-	Hold       bool   `json:"hold,omitempty"`  // saturation phase: stays until `limit` such tasks run at the same time
-	Phase      int    `json:"phase,omitempty"` // overflow classes: 1 = slot holder (gated), 2 = fills the clearance queue, 3 = submitted while the queue is full
+	Hold       bool   `json:"hold,omitempty"`       // saturation phase: stays until `limit` such tasks run at the same time
+	NilMod     bool   `json:"nil_module,omitempty"` // the call is made on a nil *modules.Module: refused, function not run, accounting untouched
+	Phase      int    `json:"phase,omitempty"`      // overflow classes: 1 = slot holder (gated), 2 = fills the clearance queue, 3 = submitted while the queue is full
 }
 
 const c15BigDelayMs = 30000
@@ -136,6 +142,19 @@ func c15Cases(cfg vlib.Cfg) []*c15Spec {
 			c15Renumber(sp)
 		}
 		sp.ParkCheck = sp.GoMaxProcs == 0 && i%4 == 1
+		sp.Restart = sp.GoMaxProcs == 0 && i%8 == 6
+		if i%4 == 3 && sp.GoMaxProcs == 0 {
+			// one refused call on a nil module per history, at a PRNG-chosen position
+			for _, h := range sp.Hists {
+				t := h.Tasks[r.Intn(len(h.Tasks))]
+				if !t.Hold && !t.Panic {
+					t.NilMod = true
+					if t.Variant == "start" { // Start* on a nil module is not driven (see report)
+						t.Variant = "run"
+					}
+				}
+			}
+		}
 		// amplifiers: hooks idle / PRNG delays at the grant and conclude points
 		switch i % 3 {
 		case 1:
@@ -226,6 +245,9 @@ type c15H struct {
 	forceConclDelay atomic.Bool  // parkCheck: every conclusion stays 2 ms at modules.mt.conclude
 	afterShutdown   atomic.Int32 // functions submitted by the probe module's stop routine that have run
 
+	prepGate chan struct{}
+	prepWg   sync.WaitGroup
+
 	firstTimeoutT   atomic.Int64 // unix nanos of the first modules.stop.timeout hit
 	firstTimeoutMod atomic.Value // module name of it
 
@@ -251,7 +273,7 @@ func c15Child(dir string, raw []byte) {
 		fmt.Println("bad spec:", err)
 		os.Exit(3)
 	}
-	h := &c15H{sp: &sp, b: vlib.NewBatch()}
+	h := &c15H{sp: &sp, b: vlib.NewBatch(), prepGate: make(chan struct{})}
 	total := 0
 	for _, hs := range sp.Hists {
 		total += len(hs.Tasks)
@@ -302,24 +324,55 @@ func c15Child(dir string, raw []byte) {
 	modules.VerifSetStopTimeout(8 * time.Second)
 	modules.SetStdErrReporting(false)
 	for i := 0; i < sp.Mods; i++ {
-		h.mods = append(h.mods, modules.Register(fmt.Sprintf("w%d", i), nil, nil, nil))
+		var prep func() error
+		if i == 0 {
+			prep = h.prepW0
+		}
+		h.mods = append(h.mods, modules.Register(fmt.Sprintf("w%d", i), prep, nil, nil))
 	}
 	h.prb = modules.Register("probe", nil, nil, h.prbStop)
 	modules.SetMaxConcurrentMicroTasks(sp.Limit)
+	if sp.Restart {
+		modules.EnableModuleManagement(func(*modules.Module) {})
+		for _, m := range h.mods {
+			m.Enable()
+		}
+		h.prb.Enable()
+	}
 	if err := modules.Start(); err != nil {
 		h.b.Inconclusive("case %d: modules.Start failed: %v", sp.Case, err)
 		h.b.Finish(dir)
 		return
 	}
+	// the microtasks the prep function of w0 started have been running across the module's
+	// first start; they finish now, in its first life
+	close(h.prepGate)
+	h.prepWg.Wait()
 	if st := modules.GetStatus(); st == nil || st.Config.MicroTasksThreshhold != sp.Limit {
 		h.b.Violation("C15:limit-not-configured", fmt.Sprintf("SetMaxConcurrentMicroTasks(%d) but GetStatus reports a different threshold", sp.Limit), map[string]any{"spec_limit": sp.Limit})
 	}
 	ok := true
+	{
+		// (prep-started microtasks finished in the first life of w0)
+		for dl := time.Now().Add(30 * time.Second); h.granted.Load() != h.submitted.Load() || h.concluded.Load() != h.expConcl.Load(); {
+			if time.Now().After(dl) {
+				break
+			}
+			time.Sleep(100 * time.Microsecond)
+		}
+		ok = h.moduleCountsZero("after-first-start")
+	}
 	for i, hist := range sp.Hists {
+		if !ok {
+			break
+		}
 		if !h.runHist(i, hist) {
 			ok = false
 			break
 		}
+	}
+	if ok && sp.Restart {
+		ok = h.restartCheck()
 	}
 	if ok && sp.ParkCheck {
 		ok = h.parkCheck()
@@ -340,13 +393,164 @@ func c15Child(dir string, raw []byte) {
 		// late duplicates
 		for id := range h.execs {
 			if n := h.execs[id].Load(); n != 1 {
-				if t := h.task(id); t != nil && t.Variant != "sig" {
+				if t := h.task(id); t != nil && t.Variant != "sig" && !t.NilMod {
 					h.b.Violation("C15:M2:executed-"+cnt(n)+":"+t.Variant+"-"+t.Prio, fmt.Sprintf("microtask function %d executed %d times (checked after shutdown)", id, n), map[string]any{"task": t})
 				}
 			}
 		}
 	}
 	h.b.Finish(dir)
+}
+
+// across launches one microtask of each kind on module m whose function stays until gate
+// is closed, and returns when all of them have begun (are counted). Used for microtasks
+// that run across a (re)start of their module: two medium/low ones (the limit is at least
+// two) and two high-priority ones.
+func (h *c15H) across(m *modules.Module, gate chan struct{}, wg *sync.WaitGroup) {
+	var begun atomic.Int32
+	big := c15BigDelayMs * time.Millisecond
+	fn := func(context.Context) error {
+		defer wg.Done()
+		begun.Add(1)
+		<-gate
+		return nil
+	}
+	wg.Add(4)
+	h.submitted.Add(2)
+	h.expConcl.Add(4)
+	m.StartMicroTask("across", big, fn)
+	go func() { _ = m.RunLowPriorityMicroTask("across", big, fn) }()
+	// (high-priority microtasks count against the limit too: the medium/low ones first)
+	for dl := time.Now().Add(10 * time.Second); begun.Load() < 2 && time.Now().Before(dl); {
+		time.Sleep(100 * time.Microsecond)
+	}
+	m.StartHighPriorityMicroTask("across", fn)
+	go func() {
+		done := m.SignalHighPriorityMicroTask()
+		_ = fn(nil)
+		done()
+	}()
+	for dl := time.Now().Add(10 * time.Second); begun.Load() < 4 && time.Now().Before(dl); {
+		time.Sleep(100 * time.Microsecond)
+	}
+	h.b.Count("microtasks_running_across_a_module_start", int64(begun.Load()))
+}
+
+// prepW0 is the prep function of module w0: it starts microtasks that are still running
+// when the module is started for the first time.
+func (h *c15H) prepW0() error {
+	h.across(h.mods[0], h.prepGate, &h.prepWg)
+	return nil
+}
+
+// restartCheck (module management on): (1) Run* functions of w0 are running when w0 is
+// stopped by a management pass and return their context's error, an error wrapping it, or
+// another error: Run* must hand back exactly that error (M2). (2) w0 gets microtasks while
+// it is offline, is started again by the next pass while they run, and they finish in its
+// new life: afterwards its count and the global count are zero (M3); the later stop of w0
+// at Shutdown must not be held up (M4, judged there).
+func (h *c15H) restartCheck() bool {
+	sp := h.sp
+	m := h.mods[0]
+	big := c15BigDelayMs * time.Millisecond
+	wrapped := fmt.Errorf("harness wrap: %w", context.Canceled)
+	type res struct {
+		kind     string
+		got, exp error
+	}
+	results := make(chan res, 3)
+	launch := func(kind string) {
+		begun := make(chan struct{})
+		var exp error
+		fn := func(ctx context.Context) error {
+			close(begun)
+			<-ctx.Done()
+			switch kind {
+			case "ctx-err":
+				exp = ctx.Err()
+			case "wrapped-canceled":
+				exp = wrapped
+			default:
+				exp = errC15
+			}
+			return exp
+		}
+		h.expConcl.Add(1)
+		go func() {
+			var err error
+			switch kind {
+			case "ctx-err":
+				h.submitted.Add(1)
+				err = m.RunMicroTask("stopping", big, fn)
+			case "wrapped-canceled":
+				h.submitted.Add(1)
+				err = m.RunLowPriorityMicroTask("stopping", big, fn)
+			default:
+				err = m.RunHighPriorityMicroTask("stopping", fn)
+			}
+			results <- res{kind, err, exp}
+		}()
+		select {
+		case <-begun:
+		case <-time.After(20 * time.Second):
+		}
+	}
+	launch("ctx-err")
+	launch("wrapped-canceled")
+	launch("other-error")
+	m.Disable()
+	_ = modules.ManageModules() // stops w0: cancels its context and waits for the three
+	for i := 0; i < 3; i++ {
+		select {
+		case r := <-results:
+			h.b.Count("run_errors_checked_at_module_stop", 1)
+			if r.got != r.exp { //nolint:errorlint // identity is what is demanded
+				h.b.Violation("C15:M2:error-not-returned:module-stopping:"+r.kind, fmt.Sprintf("a Run* microtask function that was running when its module was stopped returned %q, Run* returned %v", r.exp, r.got),
+					map[string]any{"spec": h.specNoTasks(), "kind": r.kind})
+			}
+		case <-time.After(30 * time.Second):
+			h.b.Inconclusive("case %d: restart check: a Run* call did not return after its module was stopped", sp.Case)
+			return false
+		}
+	}
+	// microtasks started while w0 is offline, running across its restart
+	gate := make(chan struct{})
+	var wg sync.WaitGroup
+	h.across(m, gate, &wg)
+	m.Enable()
+	_ = modules.ManageModules() // starts w0 again
+	close(gate)
+	wg.Wait()
+	for dl := time.Now().Add(30 * time.Second); h.granted.Load() != h.submitted.Load() || h.concluded.Load() != h.expConcl.Load(); {
+		if time.Now().After(dl) {
+			h.b.Inconclusive("case %d: restart check: grant/conclusion counts did not settle (%d/%d, %d/%d)", sp.Case, h.granted.Load(), h.submitted.Load(), h.concluded.Load(), h.expConcl.Load())
+			return false
+		}
+		time.Sleep(100 * time.Microsecond)
+	}
+	h.b.Count("restart_checks", 1)
+	return h.moduleCountsZero("restart")
+}
+
+// moduleCountsZero takes a probe sample (all conclude hooks have been passed, so the
+// module counters are final) and reports a non-zero module counter.
+func (h *c15H) moduleCountsZero(where string) bool {
+	smp, ok := h.probe(-1)
+	if !ok {
+		return false
+	}
+	for i, c := range smp.perMod {
+		if c != 0 {
+			h.b.Violation("C15:M3:module-count-nonzero:"+sign(c)+":"+where, fmt.Sprintf("microtask count of module w%d is %d after all its microtasks had concluded (%s)", i, c, where),
+				map[string]any{"spec": h.specNoTasks(), "per_module": smp.perMod})
+			return false
+		}
+	}
+	if smp.global < 0 {
+		h.b.Violation("C15:M3:global-count-nonzero:negative:"+where, fmt.Sprintf("global microtask count is %d (%s)", smp.global, where), map[string]any{"spec": h.specNoTasks()})
+		return false
+	}
+	return true
 }
 
 // inFlight is a microtask that is still running when Shutdown is called: it returns a
@@ -357,6 +561,9 @@ type inFlight struct {
 	variant string
 	begun   chan struct{}
 	endT    atomic.Int64
+	// blocking variants: what the function returned and what Run* handed back
+	exp, got error
+	ret      chan struct{}
 }
 
 func (h *c15H) launchInFlight() []*inFlight {
@@ -380,16 +587,24 @@ func (h *c15H) launchInFlight() []*inFlight {
 			if strings.HasSuffix(f.variant, "-panic") {
 				panic("harness in-flight panic")
 			}
-			return nil
+			// the function noticed that its module is being stopped and says so
+			switch f.variant {
+			case "run-med":
+				f.exp = ctx.Err()
+			case "run-high":
+				f.exp = fmt.Errorf("harness wrap: %w", ctx.Err())
+			}
+			return f.exp
 		}
 		big := c15BigDelayMs * time.Millisecond
+		f.ret = make(chan struct{})
 		switch f.variant {
 		case "run-med", "run-med-panic":
-			go func() { _ = m.RunMicroTask("inflight", big, fn) }()
+			go func() { f.got = m.RunMicroTask("inflight", big, fn); close(f.ret) }()
 		case "run-low-panic":
-			go func() { _ = m.RunLowPriorityMicroTask("inflight", big, fn) }()
+			go func() { f.got = m.RunLowPriorityMicroTask("inflight", big, fn); close(f.ret) }()
 		case "run-high", "run-high-panic":
-			go func() { _ = m.RunHighPriorityMicroTask("inflight", fn) }()
+			go func() { f.got = m.RunHighPriorityMicroTask("inflight", fn); close(f.ret) }()
 		case "start-med":
 			m.StartMicroTask("inflight", big, fn)
 		case "start-low":
@@ -429,6 +644,18 @@ func (h *c15H) launchInFlight() []*inFlight {
 func (h *c15H) judgeShutdown(fl []*inFlight) {
 	for _, f := range fl {
 		h.b.Count("stops_with_last_item_microtask:"+f.variant, 1)
+		if f.variant == "run-med" || f.variant == "run-high" {
+			select {
+			case <-f.ret:
+				h.b.Count("run_errors_checked_at_module_stop", 1)
+				if f.got != f.exp || f.exp == nil { //nolint:errorlint // identity is what is demanded
+					h.b.Violation("C15:M2:error-not-returned:module-stopping:"+f.variant, fmt.Sprintf("a Run* microtask function that was running when its module was stopped returned %q, Run* returned %v", f.exp, f.got),
+						map[string]any{"spec": h.specNoTasks(), "variant": f.variant})
+				}
+			case <-time.After(10 * time.Second):
+				h.b.Inconclusive("case %d: in-flight %s did not return after Shutdown", h.sp.Case, f.variant)
+			}
+		}
 	}
 	if h.timeouts.Load() == 0 {
 		h.b.Count("shutdowns_without_timeout", 1)
@@ -462,6 +689,42 @@ func (h *c15H) judgeShutdown(fl []*inFlight) {
 				map[string]any{"spec": h.specNoTasks(), "module": mod, "variant": variant, "idle_ms_before_timeout": idleMs, "counts": h.counts()})
 		} else {
 			h.b.Inconclusive("case %d: stop timeout of %s fired only %d ms after its last microtask returned", h.sp.Case, mod, idleMs)
+		}
+	}
+}
+
+// nilModuleCall makes the call on a nil *modules.Module (what Register returns once the
+// module system is locked). The blocking variants must refuse it with an error and not
+// run the function; nothing may be counted (the fences of the history check that: a
+// refused call that took a slot or was granted a clearance shows up in M3/M4).
+func (h *c15H) nilModuleCall(t *c15Task, md time.Duration) {
+	var nm *modules.Module
+	ran := false
+	fn := func(context.Context) error { ran = true; return nil }
+	h.b.Count("calls_on_nil_module:"+t.Variant+"-"+t.Prio, 1)
+	switch t.Variant {
+	case "run":
+		var err error
+		switch t.Prio {
+		case "high":
+			err = nm.RunHighPriorityMicroTask("nil", fn)
+		case "med":
+			err = nm.RunMicroTask("nil", md, fn)
+		default:
+			err = nm.RunLowPriorityMicroTask("nil", md, fn)
+		}
+		if err == nil || ran {
+			h.b.Violation("C15:M2:nil-module-not-refused:run-"+t.Prio, fmt.Sprintf("Run* on a nil module returned %v, function ran: %v", err, ran), map[string]any{"task": t})
+		}
+	case "sig":
+		// (the returned done function is nil; it is not called)
+		switch t.Prio {
+		case "high":
+			_ = nm.SignalHighPriorityMicroTask()
+		case "med":
+			_ = nm.SignalMicroTask(md)
+		default:
+			_ = nm.SignalLowPriorityMicroTask(md)
 		}
 	}
 }
@@ -573,8 +836,12 @@ func (h *c15H) runHist(hi int, hist *c15Hist) bool {
 		}
 	}
 	submit := func(t *c15Task) {
-		m := h.mods[t.Mod]
 		md := time.Duration(t.MaxDelayMs) * time.Millisecond
+		if t.NilMod {
+			h.nilModuleCall(t, md)
+			return
+		}
+		m := h.mods[t.Mod]
 		if t.Prio != "high" && !overflow {
 			h.submitted.Add(1) // (overflow classes: not every submission gets to queue a request; re-based at the fence)
 		}
@@ -729,6 +996,9 @@ func (h *c15H) runHist(hi int, hist *c15Hist) bool {
 
 	// ---- M2: exactly once, errors handed back
 	for _, t := range hist.Tasks {
+		if t.NilMod {
+			continue // judged in nilModuleCall
+		}
 		if n := h.execs[t.ID].Load(); n != 1 {
 			h.b.Violation("C15:M2:executed-"+cnt(n)+":"+t.Variant+"-"+t.Prio, fmt.Sprintf("microtask function executed %d times", n), map[string]any{"task": t, "spec": h.specNoTasks(), "history": hi})
 		}
@@ -1273,6 +1543,9 @@ func c15Parent(cfg vlib.Cfg) {
 		rep.Floor(rep.Counter("histories_tiny") > 0 && rep.Counter("maxdelay_expiries_observed") > 0, "no max-delay expiry observed in the tiny class")
 		rep.Floor(rep.Counter("run_errors_checked") > 0 && rep.Counter("run_panics_checked") > 0, "no error/panic hand-back checked")
 		rep.Floor(rep.Counter("park_check_rounds") >= int64(cfg.N(40, 1000)), "only %d park-check rounds", rep.Counter("park_check_rounds"))
+		rep.Floor(rep.Counter("restart_checks") >= int64(cfg.N(10, 300)), "only %d restart checks", rep.Counter("restart_checks"))
+		rep.Floor(rep.Counter("run_errors_checked_at_module_stop") >= int64(cfg.N(30, 1000)), "only %d Run* errors checked at a module stop", rep.Counter("run_errors_checked_at_module_stop"))
+		rep.Floor(rep.Counter("microtasks_running_across_a_module_start") >= int64(cfg.N(400, 10000)), "only %d microtasks running across a module start", rep.Counter("microtasks_running_across_a_module_start"))
 		rep.Floor(rep.Counter("after_shutdown_accounting_checks") >= int64(cfg.N(100, 3000)), "only %d after-shutdown accounting checks", rep.Counter("after_shutdown_accounting_checks"))
 		rep.Floor(rep.Counter("histories_overflow-low") > 0 && rep.Counter("histories_overflow-med") > 0 && rep.Counter("overflow_histories_with_queue_full_expiries") > 0,
 			"overflow classes not exercised (low=%d med=%d with queue-full expiries=%d)", rep.Counter("histories_overflow-low"), rep.Counter("histories_overflow-med"), rep.Counter("overflow_histories_with_queue_full_expiries"))
